@@ -5,7 +5,7 @@
 //
 //	capella.GetExpectedWithdrawals, capella.ProcessWithdrawals, phase0.InitiateValidatorExit, phase0.SlashValidator,
 //	altair.ProcessSyncAggregate (real BLS keys = small integers, real signatures), phase0.ProcessDeposits (real Merkle
-//	proofs), common.ProcessHeader.
+//	proofs), common.ProcessHeader, phase0.ProcessEth1Vote.
 //
 // ProcessAttestation needs committees and aggregate signatures of a whole epoch: left to the chain-level correspondence.
 package main
@@ -85,6 +85,8 @@ func mkSpec(ov []OV) *common.Spec {
 			s.CHURN_LIMIT_QUOTIENT = view.Uint64View(o.V)
 		case "MAX_SEED_LOOKAHEAD":
 			s.MAX_SEED_LOOKAHEAD = common.Epoch(o.V)
+		case "EPOCHS_PER_ETH1_VOTING_PERIOD":
+			s.EPOCHS_PER_ETH1_VOTING_PERIOD = common.Epoch(o.V)
 		case "MIN_VALIDATOR_WITHDRAWABILITY_DELAY":
 			s.MIN_VALIDATOR_WITHDRAWABILITY_DELAY = common.Epoch(o.V)
 		default:
@@ -135,6 +137,10 @@ func coqBools(xs []bool) string {
 	return CoqList(items)
 }
 
+func eth1OfID(id uint64) common.Eth1Data {
+	return common.Eth1Data{DepositRoot: patt(byte(id)), DepositCount: common.DepositIndex(id), BlockHash: patt(byte(id))}
+}
+
 func patt(b byte) (r common.Root) {
 	for i := range r {
 		r[i] = b
@@ -171,6 +177,7 @@ type Mini struct {
 	Eth1         common.Eth1Data
 	DepIndex     uint64
 	Sync         []int // validator ids of the current sync committee
+	Votes        []uint64 // eth1 data votes, as ids
 	NWI, NWVI    uint64
 }
 
@@ -205,6 +212,10 @@ func buildState(spec *common.Spec, m *Mini) (common.BeaconState, error) {
 	pp := make(altair.ParticipationRegistry, n)
 	cp := make(altair.ParticipationRegistry, n)
 	scores := make(altair.InactivityScores, n)
+	votes := make(phase0.Eth1DataVotes, len(m.Votes))
+	for i, id := range m.Votes {
+		votes[i] = eth1OfID(id)
+	}
 	fork := common.Fork{PreviousVersion: common.Version{0, 0, 0, 1}, CurrentVersion: common.Version{0, 0, 0, 1}}
 	sc := common.SyncCommittee{Pubkeys: make([]common.BLSPubkey, spec.SYNC_COMMITTEE_SIZE)}
 	for i, id := range m.Sync {
@@ -216,19 +227,19 @@ func buildState(spec *common.Spec, m *Mini) (common.BeaconState, error) {
 	switch m.Fork {
 	case 0:
 		s := &phase0.BeaconState{Slot: common.Slot(m.Slot), Fork: fork, LatestBlockHeader: m.Latest, BlockRoots: br, StateRoots: sr,
-			Eth1Data: m.Eth1, Eth1DepositIndex: common.DepositIndex(m.DepIndex),
+			Eth1Data: m.Eth1, Eth1DataVotes: votes, Eth1DepositIndex: common.DepositIndex(m.DepIndex),
 			Validators: vals, Balances: bals, RandaoMixes: mixes, Slashings: sl, JustificationBits: common.JustificationBits{0}}
 		err = s.Serialize(spec, w)
 	case 1:
 		s := &altair.BeaconState{Slot: common.Slot(m.Slot), Fork: fork, LatestBlockHeader: m.Latest, BlockRoots: br, StateRoots: sr,
-			Eth1Data: m.Eth1, Eth1DepositIndex: common.DepositIndex(m.DepIndex),
+			Eth1Data: m.Eth1, Eth1DataVotes: votes, Eth1DepositIndex: common.DepositIndex(m.DepIndex),
 			Validators: vals, Balances: bals, RandaoMixes: mixes, Slashings: sl,
 			PreviousEpochParticipation: pp, CurrentEpochParticipation: cp, JustificationBits: common.JustificationBits{0},
 			InactivityScores: scores, CurrentSyncCommittee: sc, NextSyncCommittee: sc}
 		err = s.Serialize(spec, w)
 	default:
 		s := &capella.BeaconState{Slot: common.Slot(m.Slot), Fork: fork, LatestBlockHeader: m.Latest, BlockRoots: br, StateRoots: sr,
-			Eth1Data: m.Eth1, Eth1DepositIndex: common.DepositIndex(m.DepIndex),
+			Eth1Data: m.Eth1, Eth1DataVotes: votes, Eth1DepositIndex: common.DepositIndex(m.DepIndex),
 			Validators: vals, Balances: bals, RandaoMixes: mixes, Slashings: sl,
 			PreviousEpochParticipation: pp, CurrentEpochParticipation: cp, JustificationBits: common.JustificationBits{0},
 			InactivityScores: scores, CurrentSyncCommittee: sc, NextSyncCommittee: sc,
@@ -789,6 +800,43 @@ func run(env *Env) error {
 		}
 		env.Add(Case{Coq: fmt.Sprintf("CHeader %s %d %s %d %d %d %s %d %s", coqOV(ov), slot, coqVals(vs), latestSlot, bslot, bprop, CoqBool(parentOK), expected, res(p, gerr, ok)),
 			Kind: "header", NonTrivial: !p && gerr == nil, JSON: map[string]interface{}{"fn": "ProcessHeader", "slot": slot, "block_slot": bslot, "proposer": bprop, "expected": expected, "err": gerr != nil}})
+	}
+
+	// ---------- phase0.ProcessEth1Vote ----------
+	for it := 0; it < nEach; it++ {
+		per := []uint64{1, 2, 4}[r.Intn(3)]
+		ov := []OV{{"EPOCHS_PER_ETH1_VOTING_PERIOD", per}}
+		spec := mkSpec(ov)
+		period := int(per) * SPE
+		n := r.Intn(period + 1)
+		if r.Chance(40) { // around the majority boundary
+			n = period/2 - 2 + r.Intn(5)
+		}
+		vs := make([]uint64, n)
+		ids := 1 + r.Intn(3)
+		for i := range vs {
+			vs[i] = uint64(1 + r.Intn(ids))
+		}
+		d := uint64(1 + r.Intn(ids))
+		m := &Mini{Fork: 1, Slot: 9, Vals: []MV{}, Bals: []uint64{}, Eth1: eth1OfID(200), Votes: vs, Sync: []int{0, 0}}
+		st, err := buildState(spec, m)
+		if err != nil {
+			return err
+		}
+		var gerr error
+		p, _ := Catch(func() { gerr = phase0.ProcessEth1Vote(ctx, spec, nil, st, eth1OfID(d)) })
+		ok := ""
+		if !p && gerr == nil {
+			votes, err := st.Eth1DataVotes()
+			if err != nil {
+				return err
+			}
+			l, _ := votes.Length()
+			e, _ := st.Eth1Data()
+			ok = fmt.Sprintf("(%d, %d)", l, uint64(e.DepositCount))
+		}
+		env.Add(Case{Coq: fmt.Sprintf("CEth1 %s %s %d %s", coqOV(ov), coqNs(vs), d, res(p, gerr, ok)),
+			Kind: "eth1_vote", NonTrivial: !p && gerr == nil, JSON: map[string]interface{}{"fn": "ProcessEth1Vote", "period": period, "votes": vs, "vote": d, "err": gerr != nil}})
 	}
 	_ = strings.Join
 	return nil
